@@ -199,8 +199,122 @@ fn system_time_extremes() -> (i128, i128) {
     (-(ok.as_nanos() as i128), max.as_nanos() as i128)
 }
 
+/// Save + reopen in the session shapes a package really goes through: the time set after table operations,
+/// after an earlier flush, on a reopened package, next to strings in double-byte code pages; closed in all
+/// three ways.  The reopened package must report the time that was set last.
+fn session_shapes(rep: &mut Report, only: Option<(usize, usize, usize)>) {
+    let times: [i128; 3] = [1_700_000_000_123_456_700, -5_000_000_000_000_000_100, 0];
+    let pages: [(i32, &str); 8] = [(65001, "日本 é"), (932, "日本語の題名"), (936, "中文标题"), (949, "한국어"), (950, "繁體中文"), (951, "繁體"), (1252, "café"), (1251, "тема")];
+    for shape in 0..6usize {
+        for mode in 0..3usize {
+            for (ti, &ns) in times.iter().enumerate() {
+                if let Some(o) = only {
+                    if o != (shape, mode, ti) {
+                        continue;
+                    }
+                }
+                let t = ns_to_time(ns);
+                let t_old = ns_to_time(1_000_000_000_000_000_000);
+                let med = Medium::new();
+                let r = guarded(|| -> Result<(Option<SystemTime>, Option<SystemTime>), String> {
+                    let mut p = msi::Package::create(msi::PackageType::Installer, med.handle()).map_err(|e| e.to_string())?;
+                    let table_op = |p: &mut Pkg, name: &str| -> Result<(), String> {
+                        p.create_table(name, vec![msi::Column::build("K").primary_key().int16(), msi::Column::build("V").nullable().string(0)]).map_err(|e| e.to_string())?;
+                        p.insert_rows(msi::Insert::into(name).row(vec![msi::Value::Int(1), msi::Value::from("t0x1 v")])).map_err(|e| e.to_string())
+                    };
+                    match shape {
+                        0 => {
+                            // table operations first, then the time
+                            table_op(&mut p, "A")?;
+                            p.summary_info_mut().set_creation_time(t);
+                        }
+                        1 => {
+                            // time, flush, table operation, another time
+                            p.summary_info_mut().set_creation_time(t_old);
+                            p.flush().map_err(|e| e.to_string())?;
+                            table_op(&mut p, "A")?;
+                            p.update_rows(msi::Update::table("A").set("V", msi::Value::from("t0x2 w"))).map_err(|e| e.to_string())?;
+                            p.summary_info_mut().set_creation_time(t);
+                        }
+                        2 => {
+                            // database code page change, then the time
+                            p.set_database_codepage(msi::CodePage::Windows1252);
+                            p.summary_info_mut().set_creation_time(t);
+                        }
+                        3 => {
+                            // a reopened package on which only the time is changed
+                            p.summary_info_mut().set_creation_time(t_old);
+                            table_op(&mut p, "A")?;
+                            p.into_inner().map_err(|e| e.to_string())?;
+                            p = msi::Package::open(med.handle()).map_err(|e| e.to_string())?;
+                            p.summary_info_mut().set_creation_time(t);
+                        }
+                        4 => {
+                            // a reopened package: delete rows, then the time, then a stream
+                            table_op(&mut p, "A")?;
+                            p.into_inner().map_err(|e| e.to_string())?;
+                            p = msi::Package::open(med.handle()).map_err(|e| e.to_string())?;
+                            p.delete_rows(msi::Delete::from("A")).map_err(|e| e.to_string())?;
+                            p.summary_info_mut().set_creation_time(t);
+                            use std::io::Write;
+                            let mut w = p.write_stream("S.bin").map_err(|e| e.to_string())?;
+                            w.write_all(b"stream").map_err(|e| e.to_string())?;
+                            w.flush().map_err(|e| e.to_string())?;
+                        }
+                        _ => {
+                            // strings of every kind of code page stored in front of the time
+                            let (page, text) = pages[(ti * 3 + mode) % pages.len()];
+                            p.summary_info_mut().set_codepage(crate::cpora::msi_page(page).ok_or("page")?);
+                            p.summary_info_mut().set_title(text);
+                            p.summary_info_mut().set_author(format!("{}{}", text, text));
+                            p.summary_info_mut().set_comments(text.repeat(3));
+                            p.summary_info_mut().set_creation_time(t);
+                        }
+                    }
+                    let before = p.summary_info().creation_time();
+                    match mode {
+                        0 => {
+                            p.flush().map_err(|e| e.to_string())?;
+                            std::mem::forget(p);
+                        }
+                        1 => {
+                            p.into_inner().map_err(|e| e.to_string())?;
+                        }
+                        _ => drop(p),
+                    }
+                    let q = msi::Package::open(std::io::Cursor::new(med.live())).map_err(|e| format!("reopen failed: {}", e))?;
+                    Ok((before, q.summary_info().creation_time()))
+                });
+                rep.count("session_shape_samples");
+                rep.case(Some(fnv(format!("shape:{}:{}:{}", shape, mode, ti).as_bytes())));
+                let w = json!({"ns": ns.to_string(), "shape": [shape, mode, ti]});
+                let mode_name = ["flush", "into_inner", "drop"][mode];
+                match r {
+                    Ok(Ok((a, b))) => {
+                        if a != b {
+                            rep.violation(
+                                format!("C18/reopen/session-shape-{}", shape),
+                                format!("session shape {} closed by {}: creation time {} ns reads {:?} before and {:?} after save+reopen", shape, mode_name, ns, a.map(time_to_ns), b.map(time_to_ns)),
+                                w,
+                            );
+                        }
+                    }
+                    Ok(Err(e)) => rep.violation(format!("C18/reopen-error/session-shape-{}", shape), format!("session shape {} closed by {} with creation time {} ns: {}", shape, mode_name, ns, e), w),
+                    Err(p) => rep.violation(format!("C18/panic {}", p.signature()), format!("session shape {} closed by {} panicked: {}", shape, mode_name, p.message), w),
+                }
+            }
+        }
+    }
+}
+
 pub fn run(ctx: &Ctx) -> Report {
     if let Some(w) = &ctx.replay {
+        if let Some(s) = w["shape"].as_array() {
+            let mut rep = Report::new();
+            let g = |i: usize| s.get(i).and_then(|x| x.as_u64()).unwrap_or(0) as usize;
+            session_shapes(&mut rep, Some((g(0), g(1), g(2))));
+            return rep;
+        }
         let mut rep = Report::new();
         let ns: i128 = w["ns"].as_str().and_then(|s| s.parse().ok()).unwrap_or(0);
         let (_m, pkg) = new_pkg();
@@ -239,6 +353,9 @@ pub fn run(ctx: &Ctx) -> Report {
                     c.one(a + tick * 100 + sub, true, class);
                 }
             }
+        }
+        if shard == 1 % n {
+            session_shapes(c.rep, None);
         }
         if shard == 0 {
             // extremes of the platform's SystemTime range and far outside the format's range
